@@ -86,7 +86,11 @@ package x509
 //@     (j == len(ch)-1 ==> SelfSignedStmt(ch[j])) &&
 //@     (j <  len(ch)-1 ==> !SelfSignedStmt(ch[j]) && Link(ch[j], ch[j+1])) &&
 //@     (j == 0 ==> TSLeafOK(ch[0])) && (j > 0 ==> TSCAOK(ch[j], j-1)) }
-//@ spec func ChainInput(ch []*x509.Certificate) bool { forall i :: 0 <= i && i < len(ch) ==> ch[i] != nil && ParsedCert(ch[i]) }
+// IsParsed(c): c was produced by x509.ParseCertificate; kept abstract so that chains can be passed around cheaply, its
+// meaning (ParsedCert) is unfolded by the axiom below where a validation function needs it
+//@ abstract func IsParsed(c *x509.Certificate) bool
+//@ axiom forall c *x509.Certificate :: IsParsed(c) ==> ParsedCert(c)
+//@ spec func ChainInput(ch []*x509.Certificate) bool { forall i :: 0 <= i && i < len(ch) ==> ch[i] != nil && IsParsed(ch[i]) }
 
 // ---- helper.go
 //@ func isIssuedBy(subject, issuer)
